@@ -3,8 +3,11 @@ package main
 import (
 	"errors"
 	"fmt"
+	"sort"
 	"strings"
 	"time"
+
+	"codeberg.org/TauCeti/mangle-go/ast"
 
 	"verifmc/mg"
 	"verifmc/oracle"
@@ -33,6 +36,19 @@ var c04LitsSmall = []string{
 	"q(X)", "q(Y)", "r(X,Y)", "r(X,_)", "!s(X)", "!s(Y)", "!s(_)", "!t(X,Y)", "!t(Z,X)",
 	"X = Y", "Y = fn:plus(X, 1)", "X != Y", "X < Y", "P = fn:pair(X, Y)", ":match_pair(P, X, Y)", "X = 1",
 }
+
+// function applications inside atoms, wildcards in equalities, list patterns over the variable they test
+var c04LitsFn = []string{
+	"q(X)", "q(Y)", "r(X,Y)", "!s(X)",
+	"q(fn:plus(X, 1))", "r(X, fn:plus(Y, 1))", "r(fn:plus(X, 1), Y)", "!s(fn:plus(X, 1))", "!t(X, fn:plus(Y, 1))",
+	"_ = X", "X = _", "_ != X", "_ = fn:plus(X, 1)",
+	":list:member(X, [X])", ":list:member(Y, [X, Y])", ":list:member(X, [1, Y])",
+	"fn:plus(Y, 1) < 3", "X < fn:plus(Y, 1)", ":match_pair(fn:pair(X, Y), X, Z)", "Y = fn:plus(fn:plus(X, 1), Z)",
+}
+
+// transform tails for the function family: let chains in and out of definition order
+var c04TransformsFn = []string{"", " |> let Y = fn:plus(X, 1)", " |> let W = fn:plus(X, 1), let Y = fn:plus(X, W)", " |> let Y = fn:plus(X, W), let W = fn:plus(X, 1)",
+	" |> do fn:group_by(X), let Y = fn:count(), let Z = fn:sum(X)", " |> do fn:group_by(X), let Y = fn:sum(W)"}
 
 // focused set for 4-literal bodies in the quick tier
 var c04LitsFour = []string{"q(X)", "q(Y)", "r(X,Y)", "!s(X)", "!s(Y)", "!t(X,Y)", "!t(Y,X)", "X != Y", "X = Y"}
@@ -65,7 +81,13 @@ func c04(r *rt.Run) {
 			for _, t := range c04Transforms {
 				// A transform that defines a variable which also occurs in the body has no documented
 				// meaning (the body occurrence is a different binding); outside the alphabet.
-				if def := transformDefines(t); def != "" && mentionsVar(body, def) {
+				redefines := false
+				for _, def := range transformDefinesAll(t) {
+					if mentionsVar(body, def) {
+						redefines = true
+					}
+				}
+				if redefines {
 					outOfAlphabet++
 					continue
 				}
@@ -109,6 +131,25 @@ func c04(r *rt.Run) {
 		}
 		clauses = kept
 	}
+	{
+		// the function family: bodies of <= 3 literals over c04LitsFn with its own transform tails
+		saveT := c04Transforms
+		c04Transforms = c04TransformsFn
+		n0 := len(clauses)
+		rec(c04LitsFn, 3, nil, make([]bool, len(c04LitsFn)))
+		c04Transforms = saveT
+		seen := map[string]bool{}
+		for _, c := range clauses[:n0] {
+			seen[c] = true
+		}
+		kept := clauses[:n0]
+		for _, c := range clauses[n0:] {
+			if !seen[c] {
+				kept = append(kept, c)
+			}
+		}
+		clauses = kept
+	}
 	if r.Thorough() {
 		n0 := len(clauses)
 		rec(c04LitsSmall, 4, nil, make([]bool, len(c04LitsSmall)))
@@ -130,7 +171,7 @@ func c04(r *rt.Run) {
 		}
 		c04Clause(r, clauses[i])
 	})
-	r.Finish("every clause H :- L1..Lk (k<=3 over 28 literals, k=4 over a focused 9-literal set; thorough adds k=4 over 16) in every order x 5 heads x 4 transform tails, analysed alone with declared EDB predicates; accepted ones evaluated on 3 EDBs; " +
+	r.Finish("every clause H :- L1..Lk (k<=3 over 28 literals, k<=3 over a 20-literal family with function applications inside atoms / wildcards in equalities / list patterns x 6 transform tails incl. let chains, k=4 over a focused 9-literal set; thorough adds k=4 over 16) in every order x 5 heads x 4 transform tails, analysed alone with declared EDB predicates; accepted ones evaluated on 3 EDBs; " +
 		"non-trivial = accepted clause whose reference result is non-empty on some EDB; distinct by construction")
 }
 
@@ -198,6 +239,10 @@ func c04Clause(r *rt.Run, clause string) {
 		}
 		if errors.Is(rerr, oracle.ErrUnsafe) {
 			if ei == 0 {
+				if v := fnArgUnbound(pp); v != "" {
+					r.Violate("unsafe-accepted-fn-in-atom-arg-unbound", "analysis accepted a clause in which "+v+" occurs inside a function application in an argument of a stored-predicate atom before it has a value", w)
+					continue
+				}
 				r.Violate("unsafe-accepted", "analysis accepted a clause in which some variable can never receive a value where it is needed", w)
 			}
 			continue
@@ -219,6 +264,10 @@ func c04Clause(r *rt.Run, clause string) {
 			continue
 		}
 		if everr != nil {
+			if v := fnArgUnbound(pp); v != "" && strings.Contains(everr.Error(), "not a value: "+v+" ") {
+				r.Violate("eval-error-fn-in-atom-arg-unbound", "accepted clause failed at evaluation: "+everr.Error(), w)
+				continue
+			}
 			r.Violate("eval-error", "accepted clause failed at evaluation: "+everr.Error(), w)
 			continue
 		}
@@ -243,6 +292,95 @@ func c04Clause(r *rt.Run, clause string) {
 			r.Sample(map[string]any{"clause": clause, "accepted": true})
 		}
 	}
+}
+
+// transformDefinesAll lists every variable a transform tail defines with let.
+func transformDefinesAll(t string) []string {
+	var out []string
+	rest := t
+	for {
+		i := strings.Index(rest, "let ")
+		if i < 0 {
+			return out
+		}
+		rest = rest[i+4:]
+		if j := strings.Index(rest, " "); j > 0 {
+			out = append(out, rest[:j])
+		}
+	}
+}
+
+// fnArgUnbound looks at the clause in the premise order analysis chose and returns the name of a
+// variable that occurs inside a function application among the arguments of a non-built-in atom
+// (plain or negated) at a point where no earlier premise can have given it a value; "" if there is none.
+// It is the attribution test of known finding F41 (computed from the witness, never from the message alone).
+func fnArgUnbound(pp parsedProg) string {
+	if pp.pi == nil || len(pp.pi.Rules) == 0 {
+		return ""
+	}
+	bound := map[string]bool{}
+	direct := func(args []ast.BaseTerm) {
+		for _, a := range args {
+			if v, ok := a.(ast.Variable); ok && v.Symbol != "_" {
+				bound[v.Symbol] = true
+			}
+		}
+	}
+	varsOf := func(t ast.BaseTerm) []string {
+		m := map[ast.Variable]bool{}
+		ast.AddVars(t, m)
+		var out []string
+		for v := range m {
+			out = append(out, v.Symbol)
+		}
+		sort.Strings(out)
+		return out
+	}
+	allBound := func(t ast.BaseTerm) bool {
+		for _, v := range varsOf(t) {
+			if !bound[v] {
+				return false
+			}
+		}
+		return true
+	}
+	for _, p := range pp.pi.Rules[0].Premises {
+		var atom *ast.Atom
+		neg := false
+		switch t := p.(type) {
+		case ast.Atom:
+			atom = &t
+		case ast.NegAtom:
+			atom, neg = &t.Atom, true
+		case ast.Eq:
+			if v, ok := t.Left.(ast.Variable); ok && allBound(t.Right) {
+				bound[v.Symbol] = true
+			}
+			if v, ok := t.Right.(ast.Variable); ok && allBound(t.Left) {
+				bound[v.Symbol] = true
+			}
+			continue
+		default:
+			continue
+		}
+		if atom.Predicate.IsBuiltin() {
+			direct(atom.Args) // outputs of built-ins; inputs were bound already
+			continue
+		}
+		for _, a := range atom.Args {
+			if _, isFn := a.(ast.ApplyFn); isFn {
+				for _, v := range varsOf(a) {
+					if !bound[v] {
+						return v
+					}
+				}
+			}
+		}
+		if !neg {
+			direct(atom.Args)
+		}
+	}
+	return ""
 }
 
 func transformDefines(t string) string {
